@@ -478,6 +478,16 @@ class Contracts:
         self.patterns = []
         self.const_paths = {}
 
+    def fork(self):
+        """independent copy for harness-local contracts"""
+        c = Contracts()
+        c.table = dict(self.table)
+        c.const_paths = dict(self.const_paths)
+        for k, v in self.__dict__.items():
+            if k not in ('table', 'const_paths', 'patterns'):
+                setattr(c, k, v)
+        return c
+
     def register(self, *keys):
         def deco(f):
             for k in keys:
@@ -521,7 +531,8 @@ class Contracts:
         return None
 
     def unit_value(self, m, path, dest_ty):
-        return None
+        # unit variant / unit struct of a foreign type that no modelled code inspects
+        return Opaque('foreign_unit', (path,))
 
     def ptr_metadata(self, m, v):
         return self.seq_len(m, v)
